@@ -20,40 +20,75 @@ theorem Reach.mono {sp : Spec} {H H' : Sys → Action → Prop} (h : ∀ s a, H 
   | init => exact .init
   | step _ ha hs ih => exact .step ih (h _ _ ha) hs
 
-/-! ### upstream resolutions are always ones the chain dictates -/
+/-! ### every upstream resolution is justified by an observed chain fact -/
 
-def MsgsOk (sp : Spec) (s : Sys) : Prop := ∀ m ∈ s.msgs, m ∈ expectedMsgs sp
+/-- a delivered resolution `(idx, settle)` is justified when it is one of the arbitrator's own
+    fails (dust / dangling / breach), or when the htlc output of a contract with that index was
+    OBSERVED spent: by the remote party (preimage revealed → settle) or by us (timeout → fail). -/
+def Justified (sp : Spec) (f : Facts) (m : Nat × Bool) : Prop :=
+  (m.2 = false ∧ m.1 ∈ listFails sp) ∨
+  ∃ c ∈ sp.contracts, c.kind.isOut = true ∧ c.idx = m.1 ∧
+    f.spendOf c.key = some (if m.2 then SpendKind.remote else SpendKind.ours)
 
-theorem failMsgs_dust_sub (sp : Spec) : ∀ m ∈ failMsgs sp.dustFails, m ∈ expectedMsgs sp := by
-  intro m hm; simp [expectedMsgs]; left; exact hm
+def MsgsOk (sp : Spec) (s : Sys) : Prop := ∀ m ∈ s.msgs, Justified sp s.facts m
 
-theorem failMsgs_dangling_sub (sp : Spec) : ∀ m ∈ failMsgs sp.danglingFails, m ∈ expectedMsgs sp := by
-  intro m hm; simp [expectedMsgs]; right; left; exact hm
+theorem failMsgs_dust_sub (sp : Spec) (f : Facts) : ∀ m ∈ failMsgs sp.dustFails, Justified sp f m := by
+  intro m hm
+  simp only [failMsgs, List.mem_map] at hm
+  obtain ⟨i, hi, rfl⟩ := hm
+  left; exact ⟨rfl, by simp [listFails, hi]⟩
 
-theorem failMsgs_breach_sub (sp : Spec) : ∀ m ∈ failMsgs sp.breachFails, m ∈ expectedMsgs sp := by
-  intro m hm; simp [expectedMsgs]; right; right; left; exact hm
+theorem failMsgs_dangling_sub (sp : Spec) (f : Facts) :
+    ∀ m ∈ failMsgs sp.danglingFails, Justified sp f m := by
+  intro m hm
+  simp only [failMsgs, List.mem_map] at hm
+  obtain ⟨i, hi, rfl⟩ := hm
+  left; exact ⟨rfl, by simp [listFails, hi]⟩
+
+theorem failMsgs_breach_sub (sp : Spec) (f : Facts) :
+    ∀ m ∈ failMsgs sp.breachFails, Justified sp f m := by
+  intro m hm
+  simp only [failMsgs, List.mem_map] at hm
+  obtain ⟨i, hi, rfl⟩ := hm
+  left; exact ⟨rfl, by simp [listFails, hi]⟩
 
 theorem find?_mem {sp : Spec} {k : Nat} {c : Contract} (h : sp.find? k = some c) :
     c ∈ sp.contracts := by
   unfold Spec.find? at h
   exact List.mem_of_find?_eq_some h
 
-theorem upstream_sub {sp : Spec} {c : Contract} (hc : c ∈ sp.contracts) :
-    ∀ m ∈ c.upstream.toList, m ∈ expectedMsgs sp := by
-  intro m hm
-  simp [expectedMsgs]
-  right; right; right
-  cases hu : c.upstream with
-  | none => simp [hu] at hm
-  | some u =>
-    simp [hu] at hm
-    exact ⟨c, hc, by rw [hu, hm]⟩
+theorem find?_spec_key {sp : Spec} {k : Nat} {c : Contract} (h : sp.find? k = some c) :
+    c.key = k := by
+  unfold Spec.find? at h
+  have := List.find?_some h
+  simpa using this
 
-theorem dustIf_sub (sp : Spec) (b : Bool) : ∀ m ∈ dustIf sp b, m ∈ expectedMsgs sp := by
+/-- an output is spent once: later facts never change an observed spend. -/
+theorem spendOf_add {f : Facts} {k : Nat} {x : SpendKind} (a : Fact) (h : f.spendOf k = some x) :
+    (f.add a).spendOf k = some x := by
+  cases a with
+  | spend1 k' b =>
+    simp only [Facts.add]
+    split
+    · exact h
+    · simp only [Facts.spendOf] at h ⊢
+      rw [List.find?_append]
+      cases hf : f.spent1.find? (·.1 == k) with
+      | none => simp [hf] at h
+      | some p => simpa [hf] using h
+  | _ => simpa [Facts.add, Facts.spendOf] using h
+
+theorem justified_add {sp : Spec} {f : Facts} {m : Nat × Bool} (a : Fact) (h : Justified sp f m) :
+    Justified sp (f.add a) m := by
+  rcases h with h | ⟨c, hc, ho, hi, hs⟩
+  · left; exact h
+  · right; exact ⟨c, hc, ho, hi, spendOf_add a hs⟩
+
+theorem dustIf_sub (sp : Spec) (f : Facts) (b : Bool) : ∀ m ∈ dustIf sp b, Justified sp f m := by
   intro m hm
   unfold dustIf at hm
   split at hm
-  · exact failMsgs_dust_sub sp m hm
+  · exact failMsgs_dust_sub sp f m hm
   · simp at hm
 
 theorem leaveDefault_commit {hr : Bool} {t : Trigger} {d ms : List (Nat × Bool)} {n : AState}
@@ -75,34 +110,35 @@ theorem leaveOnClose_not_insert {hr : Bool} {t : Trigger} {o : AdvRes} {ms : Lis
     (ho : o ≠ .insert ms fs) : leaveOnClose hr t o ≠ .insert ms fs := by
   cases t <;> simp [leaveOnClose] <;> exact ho
 
-/-- messages of one `stateStep`. -/
+/-- messages of one `stateStep`: only the arbitrator's own dust fails. -/
 theorem advRes_commit_msgs {sp : Spec} {s : Sys} {ms : List (Nat × Bool)} {n : AState}
-    (h : advRes sp s = .commit ms n) : ∀ m ∈ ms, m ∈ expectedMsgs sp := by
+    (h : advRes sp s = .commit ms n) : ms = [] ∨ ms = failMsgs sp.dustFails := by
   unfold advRes at h
   split at h
   · unfold defaultRes at h
     split at h
     · split at h
       · cases h
-      · rw [leaveDefault_commit h]; exact dustIf_sub sp _
+      · rw [leaveDefault_commit h]; unfold dustIf; split <;> simp
     · split at h
       · cases h
-      · rw [leaveDefault_commit h]; exact dustIf_sub sp _
-  · rw [leaveOnClose_commit (by intro _ _ hh; cases hh) h]; intro m hm; simp at hm
-  · rw [leaveOnClose_commit (by intro _ _ hh; cases hh) h]; intro m hm; simp at hm
+      · rw [leaveDefault_commit h]; unfold dustIf; split <;> simp
+  · left; exact leaveOnClose_commit (by intro _ _ hh; cases hh) h
+  · left; exact leaveOnClose_commit (by intro _ _ hh; cases hh) h
   · unfold closedRes at h
     split at h
     · cases h
     · split at h
-      · cases h; intro m hm; simp at hm
+      · cases h; left; rfl
       · split at h <;> cases h
   · split at h
-    · cases h; intro m hm; simp at hm
+    · cases h; left; rfl
     · cases h
   · cases h
 
 theorem advRes_insert_msgs {sp : Spec} {s : Sys} {ms : List (Nat × Bool)} {fs : List Nat}
-    (h : advRes sp s = .insert ms fs) : ∀ m ∈ ms, m ∈ expectedMsgs sp := by
+    (h : advRes sp s = .insert ms fs) :
+    ms = failMsgs sp.breachFails ∨ ms = failMsgs sp.danglingFails := by
   unfold advRes at h
   split at h
   · unfold defaultRes at h
@@ -121,54 +157,25 @@ theorem advRes_insert_msgs {sp : Spec} {s : Sys} {ms : List (Nat × Bool)} {fs :
     · split at h
       · cases h
       · split at h
-        · cases h; exact failMsgs_breach_sub sp
-        · cases h; exact failMsgs_dangling_sub sp
+        · cases h; left; rfl
+        · cases h; right; rfl
   · split at h <;> cases h
   · cases h
 
+/-- what a resolver delivers upstream is what it observed on chain. -/
 theorem resRes_put_msgs {sp : Spec} {f : Facts} {r : RunRes} {ms : List (Nat × Bool)} {rec : Rec} {pc : RPc}
-    (h : resRes sp f r = .put ms rec pc) : ∀ m ∈ ms, m ∈ expectedMsgs sp := by
+    (h : resRes sp f r = .put ms rec pc) :
+    ms = [] ∨ ∃ c b, sp.find? r.key = some c ∧ ms = c.msg b ∧
+      f.spendOf r.key = some (if b then SpendKind.remote else SpendKind.ours) := by
+  obtain ⟨key, ⟨kind, incub, resolved⟩, rpc⟩ := r
   unfold resRes at h
-  split at h
-  · cases h
-  · cases h
-  · split at h <;> cases h
-  · split at h
-    · cases h
-    · rename_i c hc
-      have hmem := find?_mem hc
-      split at h
-      · -- oc
-        split at h
-        · split at h
-          · cases h; exact upstream_sub hmem
-          · cases h
-        · split at h
-          · cases h; intro m hm; simp at hm
-          · cases h
-      · -- to
-        split at h
-        · cases h
-        · split at h
-          · cases h
-          · split at h
-            · cases h; exact upstream_sub hmem
-            · split at h
-              · cases h; exact upstream_sub hmem
-              · split at h
-                · cases h; exact upstream_sub hmem
-                · split at h
-                  · cases h; intro m hm; simp at hm
-                  · cases h
-      · split at h
-        · cases h; intro m hm; simp at hm
-        · cases h
-      · split at h
-        · cases h; intro m hm; simp at hm
-        · cases h
-      · split at h
-        · cases h; intro m hm; simp at hm
-        · cases h
+  simp only at h
+  repeat' split at h
+  all_goals first
+    | (cases h; done)
+    | (cases h; left; rfl)
+    | (cases h; right; exact ⟨_, true, ‹_›, rfl, by simp_all⟩)
+    | (cases h; right; exact ⟨_, false, ‹_›, rfl, by simp_all⟩)
 
 theorem resAlt_put_msgs {sp : Spec} {f : Facts} {r : RunRes} {ms : List (Nat × Bool)} {rec : Rec} {pc : RPc}
     (h : resAlt sp f r = .put ms rec pc) : ms = [] := by
@@ -179,8 +186,19 @@ theorem resAlt_put_msgs {sp : Spec} {f : Facts} {r : RunRes} {ms : List (Nat × 
     · cases h
   · cases h
 
+theorem msg_justified {sp : Spec} {f : Facts} {c : Contract} {b : Bool} (hc : c ∈ sp.contracts)
+    (hs : f.spendOf c.key = some (if b then SpendKind.remote else SpendKind.ours)) :
+    ∀ m ∈ c.msg b, Justified sp f m := by
+  intro m hm
+  unfold Contract.msg at hm
+  split at hm
+  · rename_i ho
+    simp at hm; subst hm
+    right; exact ⟨c, hc, ho, rfl, hs⟩
+  · simp at hm
+
 theorem msgsOk_append {sp : Spec} {s : Sys} {ms : List (Nat × Bool)} (h : MsgsOk sp s)
-    (hm : ∀ m ∈ ms, m ∈ expectedMsgs sp) : ∀ m ∈ s.msgs ++ ms, m ∈ expectedMsgs sp := by
+    (hm : ∀ m ∈ ms, Justified sp s.facts m) : ∀ m ∈ s.msgs ++ ms, Justified sp s.facts m := by
   intro m hmem
   rcases List.mem_append.mp hmem with h1 | h1
   · exact h m h1
@@ -195,7 +213,9 @@ theorem mainStep_msgsOk {sp : Spec} {s s' : Sys} (h : MsgsOk sp s) (hs : mainSte
     · split at hs <;> (cases hs; exact h)
     · split at hs
       · cases hs; exact h
-      · cases hs
+      · split at hs
+        · cases hs; exact h
+        · cases hs
   · cases hs; exact h
   · cases hs; exact h
   · -- adv
@@ -203,11 +223,17 @@ theorem mainStep_msgsOk {sp : Spec} {s s' : Sys} (h : MsgsOk sp s) (hs : mainSte
     · split at hs <;> (cases hs; exact h)
     · rename_i ms next hadv
       cases hs
-      exact msgsOk_append h (advRes_commit_msgs hadv)
+      refine msgsOk_append h ?_
+      rcases advRes_commit_msgs hadv with rfl | rfl
+      · intro m hm; simp at hm
+      · exact failMsgs_dust_sub sp _
     · cases hs; exact h
     · rename_i ms fs hadv
       cases hs
-      exact msgsOk_append h (advRes_insert_msgs hadv)
+      refine msgsOk_append h ?_
+      rcases advRes_insert_msgs hadv with rfl | rfl
+      · exact failMsgs_breach_sub sp _
+      · exact failMsgs_dangling_sub sp _
     · cases hs; exact h
   · cases hs; exact h
   · cases hs; exact h
@@ -215,7 +241,7 @@ theorem mainStep_msgsOk {sp : Spec} {s s' : Sys} (h : MsgsOk sp s) (hs : mainSte
   · cases hs
 
 theorem resApply_msgsOk {sp : Spec} {s s' : Sys} {k : Nat} {r : RunRes} {rr : ResRes}
-    (h : MsgsOk sp s) (hrr : ∀ ms rec pc, rr = .put ms rec pc → ∀ m ∈ ms, m ∈ expectedMsgs sp)
+    (h : MsgsOk sp s) (hrr : ∀ ms rec pc, rr = .put ms rec pc → ∀ m ∈ ms, Justified sp s.facts m)
     (hs : resApply s k r rr = some s') : MsgsOk sp s' := by
   unfold resApply at hs
   split at hs
@@ -235,7 +261,12 @@ theorem step_msgsOk {sp : Spec} {s s' : Sys} {a : Action} (h : MsgsOk sp s)
     simp only [step, resStep] at hs
     split at hs
     · cases hs
-    · exact resApply_msgsOk h (fun ms rec pc he => resRes_put_msgs he) hs
+    · rename_i r hf
+      refine resApply_msgsOk h (fun ms rec pc he => ?_) hs
+      rcases resRes_put_msgs he with rfl | ⟨c, b, hc, rfl, hsp⟩
+      · intro m hm; simp at hm
+      · have hk := find?_spec_key hc
+        exact msg_justified (find?_mem hc) (by rw [hk]; exact hsp)
   | resAlt k =>
     simp only [step, resAltStep] at hs
     split at hs
@@ -243,7 +274,9 @@ theorem step_msgsOk {sp : Spec} {s s' : Sys} {a : Action} (h : MsgsOk sp s)
     · refine resApply_msgsOk h (fun ms rec pc he => ?_) hs
       rw [resAlt_put_msgs he]; intro m hm; simp at hm
   | crash => simp only [step, restart] at hs; cases hs; exact h
-  | fact f => simp only [step] at hs; cases hs; exact h
+  | fact f =>
+    simp only [step] at hs; cases hs
+    intro m hm; exact justified_add f (h m hm)
   | forceClose =>
     simp only [step] at hs
     split at hs
@@ -527,7 +560,10 @@ theorem mainStep_inv {sp : Spec} {s s' : Sys} (h : Inv s) (hs : mainStep sp s = 
     · split at hs
       · cases hs
         exact ⟨fun _ => hme, h.pre, h.act, h.done, by simp [hnc], by simp⟩
-      · cases hs
+      · split at hs
+        · cases hs
+          exact ⟨fun _ => hme, h.pre, h.act, h.done, by simp [hnc], by simp⟩
+        · cases hs
   · -- evLogCS
     rename_i hpc
     have hnc := not_closed_of_pc h (by simp [hpc]) (by simp [hpc])
@@ -615,50 +651,17 @@ theorem mainStep_inv {sp : Spec} {s s' : Sys} (h : Inv s) (hs : mainStep sp s = 
   · cases hs
 
 /-- results of a resolver step keep the "persisted" class of the record and only come from a
-    resolver that is running or about to delete. -/
+    resolver that is running. -/
 theorem resRes_put_facts {sp : Spec} {f : Facts} {r : RunRes} {ms : List (Nat × Bool)} {rec : Rec} {pc : RPc}
     (h : resRes sp f r = .put ms rec pc) :
     rec.kind.persisted = r.rc.kind.persisted ∧ r.pc = .running := by
+  obtain ⟨key, ⟨kind, incub, resolved⟩, rpc⟩ := r
   unfold resRes at h
-  split at h
-  · cases h
-  · cases h
-  · split at h <;> cases h
-  · rename_i hpc
-    refine ⟨?_, hpc⟩
-    split at h
-    · cases h
-    · split at h
-      · rename_i hk
-        split at h
-        · split at h
-          · cases h; simp [hk, RKind.persisted]
-          · cases h
-        · split at h
-          · cases h; simp [hk, RKind.persisted]
-          · cases h
-      · split at h
-        · cases h
-        · split at h
-          · cases h
-          · split at h
-            · cases h; rfl
-            · split at h
-              · cases h; rfl
-              · split at h
-                · cases h; rfl
-                · split at h
-                  · cases h; rfl
-                  · cases h
-      · split at h
-        · cases h; rfl
-        · cases h
-      · split at h
-        · cases h; rfl
-        · cases h
-      · split at h
-        · cases h; rfl
-        · cases h
+  simp only at h
+  repeat' split at h
+  all_goals first
+    | (cases h; done)
+    | (cases h; simp_all [RKind.persisted])
 
 theorem resAlt_put_facts {sp : Spec} {f : Facts} {r : RunRes} {ms : List (Nat × Bool)} {rec : Rec} {pc : RPc}
     (h : resAlt sp f r = .put ms rec pc) :
@@ -845,7 +848,9 @@ theorem mainStep_invCC {sp : Spec} {s s' : Sys} (hi : Inv s) (h : InvCC sp s)
     · split at hs <;> (cases hs; exact ⟨h.freshStored, h.noneResolved, by simp⟩)
     · split at hs
       · cases hs; exact ⟨h.freshStored, h.noneResolved, by simp⟩
-      · cases hs
+      · split at hs
+        · cases hs; exact ⟨h.freshStored, h.noneResolved, by simp⟩
+        · cases hs
   · cases hs; exact ⟨h.freshStored, h.noneResolved, by simp⟩
   · cases hs; exact ⟨h.freshStored, h.noneResolved, by simp⟩
   · rename_i hpc
@@ -977,44 +982,10 @@ theorem resRes_put_progress {sp : Spec} {f : Facts} {r : RunRes} {ms : List (Nat
   obtain ⟨key, ⟨kind, incub, resolved⟩, rpc⟩ := r
   unfold resRes at h
   simp only at h
-  split at h
-  · cases h
-  · cases h
-  · split at h <;> cases h
-  · split at h
-    · cases h
-    · cases kind <;> simp only at h
-      · -- oc
-        split at h
-        · split at h
-          · cases h; cases incub <;> cases resolved <;> simp [Rec.progress]
-          · cases h
-        · split at h
-          · cases h; cases incub <;> cases resolved <;> simp [Rec.progress]
-          · cases h
-      · -- to
-        split at h
-        · cases h
-        · split at h
-          · cases h
-          · split at h
-            · cases h; cases incub <;> cases resolved <;> simp [Rec.progress]
-            · split at h
-              · cases h; cases incub <;> cases resolved <;> simp [Rec.progress]
-              · split at h
-                · cases h; cases incub <;> cases resolved <;> simp [Rec.progress]
-                · split at h
-                  · cases h; cases incub <;> cases resolved <;> simp [Rec.progress]
-                  · cases h
-      · split at h
-        · cases h; cases incub <;> cases resolved <;> simp [Rec.progress]
-        · cases h
-      · split at h
-        · cases h; cases incub <;> cases resolved <;> simp [Rec.progress]
-        · cases h
-      · split at h
-        · cases h; cases incub <;> cases resolved <;> simp [Rec.progress]
-        · cases h
+  repeat' split at h
+  all_goals first
+    | (cases h; done)
+    | (cases h; cases incub <;> cases resolved <;> simp_all [Rec.progress])
 
 end LndModel.C13
 
@@ -1038,7 +1009,7 @@ structure InvK (sp : Spec) (s : Sys) : Prop where
   k1 : (s.log.state = .waitingFull ∨ s.log.state = .fullyResolved ∨ s.pc = .ccCommit ∨
           s.chan.fullyClosed = true) →
         ∀ c ∈ sp.contracts, c.kind.persisted = true → c.key ∈ s.log.keys ∨ c.key ∈ s.resolvedKeys
-  k2 : s.mem = .contractClosed → s.pc = .adv → fullActions sp s.trig = true
+  k2 : s.mem = .contractClosed → s.pc = .adv → fullActions sp s.trig sp.closeHeight = true
   k3 : s.trig.isClose = true → s.trig = sp.close.trigger
   k4 : s.chan.pendingClose = true → s.chan.closeKind = sp.close
   k5 : s.pc ≠ .finished → s.trig.isClose = true → s.trig ≠ .coopClose → s.log.hasRes = true
@@ -1051,8 +1022,8 @@ structure InvK (sp : Spec) (s : Sys) : Prop where
 theorem invK_init (sp : Spec) : InvK sp init := by
   refine ⟨?_, ?_, ?_, ?_, ?_, ?_, ?_, ?_, ?_, ?_⟩ <;> simp [init, Trigger.isClose]
 
-theorem fullActions_of_close (sp : Spec) {t : Trigger} (h : t.isClose = true) :
-    fullActions sp t = true := by
+theorem fullActions_of_close (sp : Spec) {t : Trigger} (hh : Nat) (h : t.isClose = true) :
+    fullActions sp t hh = true := by
   cases t <;> simp [Trigger.isClose] at h <;> simp [fullActions]
 
 theorem trigger_isClose (k : CloseKind) : k.trigger.isClose = true := by
@@ -1109,7 +1080,7 @@ theorem advRes_commit_target {sp : Spec} {s : Sys} {ms : List (Nat × Bool)} {n 
   · rename_i hm; simp [hm, AState.preClosed] at hpre
   · cases h
 
-theorem freshRecs_full_key {sp : Spec} {t : Trigger} (hf : fullActions sp t = true) {c : Contract}
+theorem freshRecs_full_key {sp : Spec} {t : Trigger} (hf : fullActions sp t sp.closeHeight = true) {c : Contract}
     (hc : c ∈ sp.contracts) (hp : c.kind.persisted = true) : c.key ∈ (freshRecs sp t).map (·.1) := by
   simp only [freshRecs, freshContracts, hf, if_true, List.map_map, List.mem_map, List.mem_filter]
   exact ⟨c, ⟨hc, hp⟩, rfl⟩
@@ -1127,7 +1098,7 @@ theorem mainStep_invK {sp : Spec} (hcoop : sp.CoopClean) {s s' : Sys} (hi : Inv 
         cases hs
         refine ⟨?_, ?_, ?_, ?_, ?_, ?_, ?_, ?_, ?_, ?_⟩
         · intro hc; exact h.k1 (by simpa [hpc, hnc] using hc)
-        · intro _ _; exact fullActions_of_close sp rfl
+        · intro _ _; exact fullActions_of_close sp _ rfl
         · intro _; simp [hcl, CloseKind.trigger]
         · intro _; simp [hcl]
         · intro _ _ hne; simp at hne
@@ -1161,7 +1132,22 @@ theorem mainStep_invK {sp : Spec} (hcoop : sp.CoopClean) {s s' : Sys} (hi : Inv 
         · simp
         · simp
         · simp
-      · cases hs
+      · split at hs
+        · rename_i hw
+          cases hs
+          have hmd : s.mem = .default := by
+            simp only [Bool.and_eq_true, beq_iff_eq] at hw; exact hw.1.1
+          refine ⟨?_, ?_, ?_, h.k4, ?_, ?_, ?_, ?_, ?_, ?_⟩
+          · intro hc; exact h.k1 (by simpa [hpc, hnc] using hc)
+          · intro hm; simp [hmd] at hm
+          · intro hc; simp [Trigger.isClose] at hc
+          · intro _ hc; simp [Trigger.isClose] at hc
+          · intro _; exact h.k6 (by simp [hpc])
+          · simp
+          · simp
+          · simp
+          · simp
+        · cases hs
   · -- evLogCS
     rename_i hpc
     have hnc := not_closed_of_pc hi (by simp [hpc]) (by simp [hpc])
@@ -1183,7 +1169,7 @@ theorem mainStep_invK {sp : Spec} (hcoop : sp.CoopClean) {s s' : Sys} (hi : Inv 
     have hr := h.k7 (Or.inr hpc)
     refine ⟨?_, ?_, ?_, ?_, ?_, ?_, ?_, ?_, ?_, ?_⟩
     · intro hc; exact h.k1 (by simpa [hpc, hnc] using hc)
-    · intro _ _; exact fullActions_of_close sp (trigger_isClose _)
+    · intro _ _; exact fullActions_of_close sp _ (trigger_isClose _)
     · intro _; rfl
     · intro _; rfl
     · intro _ _ _; exact hr
@@ -1240,7 +1226,8 @@ theorem mainStep_invK {sp : Spec} (hcoop : sp.CoopClean) {s s' : Sys} (hi : Inv 
               split at hadv
               · cases hadv
               · split at hadv
-                · rename_i hh; simp only [Bool.and_eq_true] at hh; exact hh.1
+                · rename_i hh
+                  simp only [Spec.isEmpty, Bool.and_eq_true] at hh; exact hh.1.1.1.1.1
                 · split at hadv <;> cases hadv
             simp only [List.isEmpty_iff] at hce
             rw [hce] at hcm; simp at hcm
@@ -1258,7 +1245,7 @@ theorem mainStep_invK {sp : Spec} (hcoop : sp.CoopClean) {s s' : Sys} (hi : Inv 
       · intro hm _
         have hm' : next = .contractClosed := hm
         rcases advRes_commit_shape hadv with ⟨hpre, _⟩ | ⟨_, hn, _⟩
-        · exact fullActions_of_close sp ((advRes_commit_target hpre hadv).1 hm')
+        · exact fullActions_of_close sp _ ((advRes_commit_target hpre hadv).1 hm')
         · rw [hn] at hm'; cases hm'
       · intro _; exact h.k5 (by simp [hpc])
       · intro _; exact h.k6 (by simp [hpc])
